@@ -43,6 +43,8 @@ class ValueGen:
         if k == "int":
             if bias and draw(st.integers(0, 9)) < 7:
                 return draw(st.sampled_from(bias))
+            if r["wire"] == "byte" and draw(st.integers(0, 5)) == 0:
+                return 255      # the one integer value that looks like a break byte on the wire
             return draw(int_strategy(INT_LIMIT[r["wire"]]))
         if k == "bool":
             return draw(st.booleans())
